@@ -79,6 +79,12 @@ func c20XMLBodies(valid []byte) []string {
 		"<LegalHold/>", "<LegalHold><Status/></LegalHold>", "<LegalHold><Status>MAYBE</Status></LegalHold>",
 		"<AccessControlPolicy/>", "<AccessControlPolicy><Owner/></AccessControlPolicy>", "<AccessControlPolicy><AccessControlList><Grant/></AccessControlList></AccessControlPolicy>",
 		"<AccessControlPolicy><Owner><ID>x</ID></Owner><AccessControlList><Grant><Grantee/><Permission>READ</Permission></Grant></AccessControlList></AccessControlPolicy>",
+		"<AccessControlPolicy><Owner><ID>x</ID></Owner><AccessControlList><Grant><Permission>READ</Permission></Grant></AccessControlList></AccessControlPolicy>",
+		"<AccessControlPolicy><Owner><ID>ROOTACCESSKEY0000001</ID></Owner><AccessControlList><Grant><Permission>FULL_CONTROL</Permission></Grant></AccessControlList></AccessControlPolicy>",
+		"<AccessControlPolicy><Owner><ID>ROOTACCESSKEY0000001</ID></Owner><AccessControlList><Grant><Grantee><ID>x</ID></Grantee></Grant></AccessControlList></AccessControlPolicy>",
+		"<SelectObjectContentRequest><RequestProgress></RequestProgress></SelectObjectContentRequest>",
+		"<SelectObjectContentRequest><Expression>select * from s3object</Expression><ExpressionType>SQL</ExpressionType><RequestProgress/><InputSerialization><CSV/></InputSerialization><OutputSerialization><CSV/></OutputSerialization></SelectObjectContentRequest>",
+		"<SelectObjectContentRequest><Expression>select * from s3object</Expression><ExpressionType>SQL</ExpressionType><RequestProgress><Enabled>maybe</Enabled></RequestProgress><InputSerialization/><OutputSerialization/><ScanRange><Start>-1</Start></ScanRange></SelectObjectContentRequest>",
 		"<Account/>", "<Account><Role>king</Role></Account>", "<MutableProps/>", "<MutableProps><UserID>abc</UserID></MutableProps>",
 		"<RestoreRequest/>", "<SelectObjectContentRequest/>", "<CORSConfiguration/>", "<CreateBucketConfiguration/>", "<CreateBucketConfiguration><LocationConstraint>mars</LocationConstraint></CreateBucketConfiguration>",
 		`{"Statement":[]}`, `{"Statement":null}`, `{"Statement":[{}]}`, `{"Statement":[{"Effect":"Allow"}]}`, `{"Statement":[{"Effect":"Allow","Principal":[],"Action":[],"Resource":[]}]}`,
